@@ -16,3 +16,47 @@ def install_clock():
     _ORIG["gzip.time"] = gzip.time
     fake = types.SimpleNamespace(time=lambda: FIXED_TIME)
     gzip.time = fake
+
+
+# --------------------------------------------------------------------------
+# SimMem: the contents of np.empty in repository modules
+
+_POISON_MODULES = ("dyadic_pyramid", "downscaling", "chunk_encoding",
+                   "_compressed_segmentation", "utils")
+
+
+class _NpProxy:
+    """Stands in for the module-level name ``np`` inside repository modules:
+    everything is numpy's, except that ``empty`` returns memory filled with
+    the run's poison byte instead of whatever the allocator hands out."""
+
+    def __init__(self, real, poison):
+        object.__setattr__(self, "_real", real)
+        object.__setattr__(self, "_poison", poison)
+        object.__setattr__(self, "empty_calls", 0)
+
+    def __getattr__(self, name):
+        return getattr(self._real, name)
+
+    def empty(self, shape, dtype=float, order="C", **kw):
+        a = self._real.empty(shape, dtype, order, **kw)
+        object.__setattr__(self, "empty_calls", self.empty_calls + 1)
+        if a.size:
+            a.reshape(-1).view(self._real.uint8)[:] = self._poison
+        return a
+
+
+def install_poison(poison):
+    """Poison byte 0..255 (None restores numpy)."""
+    import importlib
+    import numpy
+    proxies = []
+    for name in _POISON_MODULES:
+        mod = importlib.import_module("neuroglancer_scripts." + name)
+        if poison is None:
+            mod.np = numpy
+        else:
+            p = _NpProxy(numpy, poison)
+            mod.np = p
+            proxies.append(p)
+    return proxies
